@@ -201,7 +201,9 @@ def main():
                 rr = call(module, c["fn"], s, r["cex_args"])
                 rep["counterexample"] = r["cex_args"]
                 rep["replay_holds"] = rr.get("holds")
-                if rr.get("holds") is False:
+                if rr.get("harness_error"):
+                    harness_errors.append({"fn": c["fn"], "slice": s, "detail": "harness budget/assumption broken: " + rr["harness_error"], "cex": r.get("cex_args")})
+                elif rr.get("holds") is False:
                     record_violation(c, s, r["cex_args"], rr, "solver counterexample: " + r.get("cex_message", ""))
                 else:
                     harness_errors.append({"fn": c["fn"], "slice": s, "detail": "solver counterexample did not reproduce in plain replay",
